@@ -75,7 +75,8 @@ RECURSIVE FlatMul(_, _)
 \* [a1*b1, a1*b2, ..., a2*b1, ...]   (OpSum.__mul__ with a list operand: for op1 in self: res.extend(op1 * other))
 FlatMul(as, bs) == IF as = <<>> THEN <<>> ELSE [j \in 1..Len(bs) |-> MulTerm(Head(as), bs[j])] \o FlatMul(Tail(as), bs)
 
-\* Op.__mul__/OpSum.__mul__ with Op/OpSum operands: Op*Op -> Op ; anything else -> OpSum
+\* Op.__mul__/OpSum.__mul__/Op.__rmul__ with Op / OpSum / plain-list operands (a register of kind "sum" may be handed over as a
+\* plain Python list: Op * list, OpSum * list, list * Op): Op*Op -> Op ; anything else -> OpSum, terms in operand order
 Mul(a, b, r) == /\ \A i \in 1..Len(reg[a].ts), j \in 1..Len(reg[b].ts) : MulOK(reg[a].ts[i], reg[b].ts[j])
                 /\ Len(reg[a].ts) * Len(reg[b].ts) <= 6
                 /\ Put(r, [kind |-> IF reg[a].kind = "op" /\ reg[b].kind = "op" THEN "op" ELSE "sum", ts |-> FlatMul(reg[a].ts, reg[b].ts)],
